@@ -1,12 +1,15 @@
 // C14 — JWT assertions and request objects count only when signed by the named client.
 //
-// Engine E1 (bounded-exhaustive product / deviation enumeration), four parts:
+// Engine E1 (bounded-exhaustive product / deviation enumeration), seven parts:
 //
 //	verify   op.VerifyJWTAssertion directly (default / custom SubjectCheck / KeySet verifier)
 //	endpoint the same assertions as client_assertion on the token endpoint (code, refresh),
 //	         introspection, revocation, device authorization, and as jwt-bearer grant
 //	reqobj   signed request objects on /authorize (both routers, feature on / off)
 //	interop  assertions made by the library's own client helpers, presented to the provider
+//	history-verify / history-endpoint / history-reqobj (history_test.go): all sequences of
+//	         2 (thorough 3) calls over a forgery alphabet on ONE long-lived verifier / provider,
+//	         every call judged by the single-call oracle for its own input alone
 //
 // Every execution runs on the real code inside a synctest bubble. The oracle is written
 // from the property statement; "signed by a key the storage holds for iss" is decided with
@@ -587,11 +590,12 @@ func (k issKeySet) VerifySignature(ctx context.Context, jws *jose.JSONWebSignatu
 
 func TestCheck(t *testing.T) {
 	c := engine.Start(t, "C14")
-	c.SetRule("E1: per part, the full product over the interacting dimension groups crossed with every <=k deviations of the remaining dimensions; each vector is one execution of the real code (op.VerifyJWTAssertion, the HTTP handlers of both routers, the client helpers) in a synctest bubble, judged by a three-valued reference predicate written from the statement; signatures decided independently with crypto/rsa, crypto/ecdsa, crypto/ed25519 over the harness' own registration table; distinct = (part, oracle rule, observed outcome class)")
+	c.SetRule("E1: per part, the full product over the interacting dimension groups crossed with every <=k deviations of the remaining dimensions; each vector is one execution of the real code (op.VerifyJWTAssertion, the HTTP handlers of both routers, the client helpers) in a synctest bubble, judged by a three-valued reference predicate written from the statement; signatures decided independently with crypto/rsa, crypto/ecdsa, crypto/ed25519 over the harness' own registration table; the history parts take the full product of 2 (thorough 3) letters x verifier kind / router, one fresh instance per sequence, rule = expectation class of each call (A must accept, R must reject, E either), outcome = what each call did; distinct = (part, oracle rule, observed outcome class)")
 	c.Assume("Go standard library signature primitives are correct (they are the signature oracle)",
 		"refstore is the storage (keys looked up by (kid, client or service user id); part of the trusted base)",
 		"clock band: |offset|+1s around each time boundary is judged Either (DESIGN §1.6)",
 		"a signature by a key of iss under a kid that does not name it, an algorithm outside RS256/ES256/PS256, an absent iat without max age: Either",
+		"histories: every call of a sequence happens at the same instant and against the same storage content; only state held by the verifier / provider instance itself is carried from call to call",
 		"request objects: absent client_id / response_type member in the object: Either; scope is not required to be overridden when the plain scope lacks openid")
 	walls := map[string]float64{}
 	for _, p := range []struct {
